@@ -200,8 +200,8 @@ func docSize(doc any) int {
 
 func confirmAndMinimise(id string, p *Prop, bin, tier string, bad *Reply) (string, bool) {
 	want := bad.Outcome.Viol[0]
-	os.MkdirAll(filepath.Join(verifDir, "replays"), 0o755)
-	path := filepath.Join(verifDir, "replays", fmt.Sprintf("%s-%d.json", id, bad.Seed))
+	os.MkdirAll(replaysDir(), 0o755)
+	path := filepath.Join(replaysDir(), fmt.Sprintf("%s-%d.json", id, bad.Seed))
 	doc := replayDoc{Property: id, World: p.World, Tier: tier, Seed: bad.Seed, Expect: want}
 	if len(bad.Scenario) == 0 {
 		// process crash: no scenario came back; regenerate it by seed.
